@@ -137,7 +137,7 @@ pub fn run_case(case: &Case, rep: &mut Report, seed: u64, case_no: u64, class: &
   let tracker: Comp = CompositeTracker(rec_trk(), CompositeTracker(rec_trk(), CompositeTracker(EventTracker::default(), rec_trk())));
   let mut drv: Driver<Comp> = Driver::new(prog.clone(), &case.init, tracker);
   let keys = Keys {
-    tasks: (0..prog.n_tasks() as u32).map(|t| (format!("T{}", t), Box::new(Prog { id: t, table: prog.clone() }) as Box<dyn KeyObj>)).collect(),
+    tasks: (0..prog.n_tasks() as u32).map(|t| (format!("T{}", t), crate::prog::key_of_task(&prog, t))).collect(),
     resources: (0..prog.n_res.max(prog.n_tasks()) as u32).map(|r| (format!("R{}", r), Box::new(Res(r)) as Box<dyn KeyObj>)).collect(),
   };
   rep.evaluations += 1;
